@@ -73,8 +73,12 @@ def reseat_bpm_changes_snap(
                 offsets.insert(i + 1, offset)
 
         # Extend case, see docstring
-        elif 0 < beat_diff_rem <= extend_threshold:
+        elif (
+            0 < beat_diff_rem <= extend_threshold
+            and beat_diff_quo % bcs_0.metronome != 0
+        ):
             # Check if it's possible to extend by changing metronome
+            # (a whole number of measures plus float noise needs no extension)
             metronome = beat_diff_quo % bcs_0.metronome
             bcs = BpmChangeSnap(
                 bcs_0.bpm / ((beat_diff_rem + metronome) / metronome),
